@@ -30,8 +30,8 @@ HEADER_R = ("From Coq Require Import Reals List ZArith.\nFrom Interval Require I
             "From TFV Require Import Base.RBase Base.Tie Samp.Samplers.\nImport ListNotations.\nOpen Scope R_scope.\n")
 HEADER_Q = ("From Coq Require Import QArith Qabs ZArith List Bool.\nFrom TFV Require Import Samp.Samplers Samp.Bins.\n"
             "Import ListNotations.\n")
-UNF = ("li_solve li_integral li_call li_int_all li_total li_int_step solve_from integral_from call_from bin_solve bin_cum "
-       "bin_int lx0 lx1 lk lb fst snd cal_coeffs clampk nth bw_call bw_integral bw_int_all bw_kxmin bw_solve nd_axis nd_coeff")
+UNF = ("li_solve li_integral li_call li_int_all li_total li_int_step solve_from integral_from call_from solve_steps integral_steps bin_solve bin_cum "
+       "bin_int rmax lx0 lx1 lk lb fst snd cal_coeffs clampk nth bw_call bw_integral bw_int_all bw_kxmin bw_solve nd_axis nd_coeff")
 TAC = tac(UNF)
 VM = "vm_compute; reflexivity"
 EPS_LI = 1e-10
@@ -53,6 +53,11 @@ def nlist(ns):
 def rbins(x, k, b):
     """list of (x0,x1,k,b) from the implementation's own arrays"""
     return "[" + "; ".join("(%s, %s, %s, %s)" % (Rq(x[i]), Rq(x[i + 1]), Rq(k[i]), Rq(b[i])) for i in range(len(k))) + "]"
+
+
+def rsteps(x, k, b, ist):
+    """list of ((x0,x1,k,b), int_step) from the implementation's own arrays"""
+    return "[" + "; ".join("((%s, %s, %s, %s), %s)" % (Rq(x[i]), Rq(x[i + 1]), Rq(k[i]), Rq(b[i]), Rq(ist[i])) for i in range(len(k))) + "]"
 
 
 def rlist(xs):
@@ -103,18 +108,27 @@ def li_cases(ctx, rnd, n_grids, n_u):
             cases.append(("liB%d_%d" % (g, i), real_stmt("lb (nth %d (%s) (0,0,0,0))" % (i, cc), b[i], rtol=1e-11, atol=1e-12 * scale), TAC,
                           dict(meta0, site="LinearInterp.cal_coeffs", what="b[%d]" % i, impl=float(b[i]))))
         bins = rbins(x, k, b)
+        steps = rsteps(x, k, b, ist)
         for i in range(len(k)):
             cases.append(("liS%d_%d" % (g, i), real_stmt("nth %d (li_int_step 0 %s) 0" % (i, bins), ist[i], rtol=1e-11, atol=1e-12 * scale), TAC,
                           dict(meta0, site="LinearInterp.cal_coeffs", what="int_step[%d]" % i, impl=float(ist[i]))))
         tot = float(li.int_all)
-        us = [rnd.random() for _ in range(n_u)] + [0.0]
+        cases.append(("liT%d" % g, real_stmt("li_int_all %s" % bins, tot, rtol=1e-11, atol=1e-12 * scale), TAC,
+                      dict(meta0, site="LinearInterp.cal_coeffs", what="int_all", impl=tot)))
+        # u = 0 and u = 1 on every grid, incl. zero node values: the discriminant is then exactly 0 in the reals
+        # (clamped at 0 by the code since commit 4bd73c9; before, its float value could round below 0 -> nan)
+        us = [rnd.random() for _ in range(n_u)] + [0.0, 1.0]
         xr = float(x[-1] - x[0])
         for j, u in enumerate(us):
             sv = float(li.solve(np.array([u]))[0])
-            cases.append(("liV%d_%d" % (g, j), real_stmt("li_solve %s %s" % (bins, Rq(u)), sv, rtol=0, atol=1e-9 * xr), TAC,
+            if not math.isfinite(sv):
+                ctx.fail("tie:LinearInterp.solve", "liV%d_%d" % (g, j), "solve(%r) is not finite: %r" % (u, sv), inp=meta0, site="LinearInterp.solve", fingerprint="LinearInterp.solve",
+                         failing_input={"call": "LinearInterp(x, y).solve([u])", "x": x.tolist(), "y": y.tolist(), "u": u, "solve": str(sv), "expected_range": [float(x[0]), float(x[-1])]})
+                continue
+            cases.append(("liV%d_%d" % (g, j), real_stmt("solve_steps %s (%s * %s)" % (steps, Rq(u), Rq(tot)), sv, rtol=0, atol=1e-9 * xr), TAC,
                           dict(meta0, site="LinearInterp.solve", u=u, impl=sv)))
             iv = float(li.integral(np.array([sv]))[0])
-            cases.append(("liI%d_%d" % (g, j), real_stmt("li_integral %s %s" % (bins, Rq(sv)), iv, rtol=1e-11, atol=1e-12 * abs(tot)), TAC,
+            cases.append(("liI%d_%d" % (g, j), real_stmt("integral_steps %s %s" % (steps, Rq(sv)), iv, rtol=1e-11, atol=1e-12 * abs(tot)), TAC,
                           dict(meta0, site="LinearInterp.integral", x=sv, impl=iv)))
             # round trip on the implementation's own values, certified: integral(solve(u)) = u*int_all, in range
             cases.append(("liR%d_%d" % (g, j),
@@ -125,7 +139,7 @@ def li_cases(ctx, rnd, n_grids, n_u):
         for j in range(max(2, n_u // 2)):
             xv = rnd.uniform(float(x[0]), float(x[-1]))
             iv = float(li.integral(np.array([xv]))[0])
-            cases.append(("liJ%d_%d" % (g, j), real_stmt("li_integral %s %s" % (bins, Rq(xv)), iv, rtol=1e-11, atol=1e-12 * abs(tot)), TAC,
+            cases.append(("liJ%d_%d" % (g, j), real_stmt("integral_steps %s %s" % (steps, Rq(xv)), iv, rtol=1e-11, atol=1e-12 * abs(tot)), TAC,
                           dict(meta0, site="LinearInterp.integral", x=xv, impl=iv)))
             cv = float(li(np.array([xv]))[0])
             cases.append(("liC%d_%d" % (g, j), real_stmt("li_call %s %s" % (bins, Rq(xv)), cv, rtol=1e-11, atol=1e-12 * scale), TAC,
@@ -134,7 +148,7 @@ def li_cases(ctx, rnd, n_grids, n_u):
         if len(x) > 2:
             xv = float(x[rnd.randrange(1, len(x) - 1)])
             iv = float(li.integral(np.array([xv]))[0]); cv = float(li(np.array([xv]))[0])
-            cases.append(("liN%d" % g, real_stmt("li_integral %s %s" % (bins, Rq(xv)), iv, rtol=1e-11, atol=1e-12 * abs(tot)), TAC,
+            cases.append(("liN%d" % g, real_stmt("integral_steps %s %s" % (steps, Rq(xv)), iv, rtol=1e-11, atol=1e-12 * abs(tot)), TAC,
                           dict(meta0, site="LinearInterp.integral", x=xv, impl=iv, what="at node")))
             cases.append(("liM%d" % g, real_stmt("li_call %s %s" % (bins, Rq(xv)), cv, rtol=1e-11, atol=1e-12 * scale), TAC,
                           dict(meta0, site="LinearInterp.__call__", x=xv, impl=cv, what="at node")))
@@ -390,6 +404,10 @@ def hist_cases(ctx, rnd, n_cases, n_ev):
             warnings.simplefilter("ignore")
             h = Hist1D.histogram(m, weights=w, **kw)
         es = np.array(h.binning, dtype=float); cnt = np.array(h.count, dtype=float); err = np.array(h.error, dtype=float)
+        if np.any(np.isnan(err)) or not np.all(np.isfinite(cnt)):
+            ctx.fail("tie:Hist1D.histogram", "hsH%d" % g, "histogram returns nan", inp=None, site="Hist1D.histogram", fingerprint="Hist1D.histogram",
+                     failing_input={"call": "Hist1D.histogram(m, weights=w, **kw)", "m": m.tolist(), "w": None if w is None else w.tolist(), "kw": str(kw), "count": cnt.tolist(), "error": [str(e) for e in err]})
+            continue
         ww = np.ones(n) if w is None else w
         empty = [bool(np.isinf(e)) for e in err]
         errs = [0.0 if np.isinf(e) else float(e) for e in err]
@@ -540,11 +558,11 @@ def synthetic_ms(ctx, rnd, n_runs):
     import tf_pwa.generator.generator as G
     qc = []
     for r in range(n_runs):
-        N = rnd.choice([9, 20, 45, 60, 90])
+        N = rnd.choice([9, 20, 45, 60])
         max_N = rnd.choice([7, 15, 40, 200000])
         force = (r % 4 != 3)
         mode = ["none", "small", "large", "none"][r % 4]
-        M0 = None if mode == "none" else (0.3 if mode == "small" else 50.0)
+        M0 = None if mode == "none" else (0.3 if mode == "small" else 4.0)
         counter = [0]
         spike_at = rnd.randrange(1, 4)
         calls = [0]
@@ -560,7 +578,7 @@ def synthetic_ms(ctx, rnd, n_runs):
             n = int(d.shape[0])
             w = np.array([rr.uniform(0.05, 1.0) for _ in range(n)])
             if calls[0] in (spike_at, spike_at + 2) and n > 0:
-                w[rr.randrange(n)] = rr.uniform(1.5, 4.0) * (1 + calls[0])
+                w[rr.randrange(n)] = rr.uniform(1.5, 3.0) + 0.5 * calls[0]
             calls[0] += 1
             return tf.constant(w)
         kw = dict(max_N=max_N, force=force, display=False)
@@ -721,9 +739,10 @@ def search(ctx, fails):
     rnd = random.Random(ctx.seed * 1000003 + 2020)
     if "LinearInterp" in sites or not sites.strip():
         for t in range(300):
-            x, y = gen_grid(rnd, ["positive", "zeros", "flat", "int"][t % 4])
+            kind = ["positive", "zeros", "flat", "int"][t % 4]
+            x, y = gen_grid(rnd, kind)
             li = LinearInterp(x, y)
-            u = np.array([rnd.random() for _ in range(20)] + [0.0])
+            u = np.array([rnd.random() for _ in range(20)] + [0.0, 1.0])
             s = li.solve(u); back = li.integral(s)
             bad = np.where((np.abs(back - u * li.int_all) > 1e-8 * abs(li.int_all)) | (s < x[0] - 1e-9) | (s > x[-1] + 1e-9) | ~np.isfinite(s))[0]
             if len(bad):
@@ -766,6 +785,12 @@ def search(ctx, fails):
             if np.any(cnt != 1):
                 i = int(np.where(cnt != 1)[0][0])
                 return {"call": "AdaptiveBound(data,bins).get_bool_mask(data): number of bins holding event %d" % i, "bins": bins, "data": data.tolist(), "event": data[:, i].tolist(), "n_bins_containing": int(cnt[i])}
+            bounds = ab.get_bounds()
+            for lb_, rb_ in bounds:      # a point on an upper edge belongs to the neighbour only (half-open)
+                for pt in (np.atleast_1d(rb_).astype(float), np.atleast_1d(lb_).astype(float)):
+                    c = int(np.array(ab.get_bool_mask(pt.reshape(ndim, 1))).sum())
+                    if c > 1:
+                        return {"call": "AdaptiveBound(data,bins).get_bool_mask(point on a bin edge): number of bins holding it", "bins": bins, "data": data.tolist(), "point": pt.tolist(), "n_bins_containing": c}
             pops = masks.sum(axis=1)
             if isinstance(bins, int) and pops.max() - pops.min() > 1:
                 return {"call": "AdaptiveBound(data,bins): populations", "bins": bins, "data": data.tolist(), "populations": pops.tolist()}
@@ -820,9 +845,9 @@ def run(ctx):
     common.theorem_stage(ctx)
     q = ctx.tier == "quick"
     rcases_, qcases_ = [], []
-    rcases_ += li_cases(ctx, rnd, 8 if q else 60, 4 if q else 8)
+    rcases_ += li_cases(ctx, rnd, 8 if q else 60, 3 if q else 8)
     ctx.log("LinearInterp cases", len(rcases_))
-    rcases_ += bw_cases(ctx, rnd, 5 if q else 40, 3 if q else 6)
+    rcases_ += bw_cases(ctx, rnd, 4 if q else 40, 3 if q else 6)
     ctx.log("+BWGenerator cases", len(rcases_))
     nq, nr = nd_cases(ctx, rnd, 5 if q else 30, 4 if q else 10)
     qcases_ += nq; rcases_ += nr
@@ -835,16 +860,19 @@ def run(ctx):
     ctx.log("+multi_sampling cases", len(qcases_))
     plan = [("generate_toy", 60, 25, 0.05), ("generate_toy_p", 77, 30, 0.05), ("generate_toy", 50, 100000, 0.2)]
     if not q:
-        plan += [("generate_toy", 300, 60, 0.03), ("generate_toy_p", 500, 100, 0.03), ("generate_toy_p", 123, 100000, 0.1), ("generate_toy", 200, 40, 0.1)]
+        plan += [("generate_toy", 300, 60, 0.3), ("generate_toy_p", 500, 100, 0.3), ("generate_toy_p", 123, 100000, 0.1), ("generate_toy", 200, 40, 0.1)]
     qcases_ += toy_cases(ctx, rnd, plan)
     ctx.log("+toy cases", len(qcases_))
     ctx.evaluations += len(rcases_) + len(qcases_)
     allc = rcases_ + qcases_
     for c in allc[:: max(1, len(allc) // 6)]:
         ctx.sample({"case": c[0], "goal": c[1][:300], "meta": {k: (v if len(str(v)) < 200 else str(v)[:200] + "...") for k, v in c[3].items()}})
-    res = common.coq_cases(ctx, "c20r", HEADER_R, [c[:3] for c in rcases_], per_file=10, case_timeout=60)
+    res = common.coq_cases(ctx, "c20r", HEADER_R, [c[:3] for c in rcases_], per_file=12, case_timeout=240)
     ctx.log("real-valued goals done")
-    res.update(common.coq_cases(ctx, "c20q", HEADER_Q, [c[:3] for c in qcases_], per_file=4, case_timeout=300))
+    big = [c for c in qcases_ if c[0].startswith(("ms", "toy"))]
+    small = [c for c in qcases_ if not c[0].startswith(("ms", "toy"))]
+    res.update(common.coq_cases(ctx, "c20q", HEADER_Q, [c[:3] for c in small], per_file=6, case_timeout=300))
+    res.update(common.coq_cases(ctx, "c20m", HEADER_Q, [c[:3] for c in big], per_file=1, case_timeout=600))
     ctx.log("exact goals done")
     for cid, stmt, t, meta in allc:
         if res.get(cid) != "OK":
